@@ -43,6 +43,39 @@ def default_models():
     reg('functools.cache', lambda I, f: f)
     reg('functools.wraps', lambda I, f: Builtin('wraps', lambda g: g))
 
+    # ---- collections.abc.Mapping mixin methods (defined by the ABC in terms of __getitem__ / __iter__ / __len__)
+    def _map_keys(I, o):
+        return list(I.iterate(o))
+
+    def _map_items(I, o):
+        return [(k, I.getitem(o, k)) for k in I.iterate(o)]
+
+    def _map_eq(I, o, other):
+        from ..rt import NotImplementedVal
+        if isinstance(other, dict):
+            od = list(other.items())
+        elif isinstance(other, Obj) and any(b.name == 'collections.abc.Mapping' for b in other.cls.ext_bases()):
+            od = _map_items(I, other)
+        else:
+            return NotImplementedVal
+        mine = _map_items(I, o)
+        if len(mine) != len(od):
+            return False
+        r = True
+        for k, v in mine:
+            match = [v2 for k2, v2 in od if I.truth(I.compare('==', k, k2))]
+            if not match:
+                return False
+            r = I.and_(r, I.compare('==', v, match[0]))
+        return r
+    for _b in ('collections.abc.Mapping', 'typing.Mapping'):
+        reg(f'method:{_b}.keys', lambda I, o: _map_keys(I, o))
+        reg(f'method:{_b}.items', lambda I, o: _map_items(I, o))
+        reg(f'method:{_b}.values', lambda I, o: [v for k, v in _map_items(I, o)])
+        reg(f'method:{_b}.get', lambda I, o, k, d=None: I.getitem(o, k) if I.truth(I.contains(o, k)) else d)
+        reg(f'method:{_b}.__eq__', _map_eq)
+        reg(f'method:{_b}.__ne__', lambda I, o, other: I.not_(_map_eq(I, o, other)))
+
     def _dc_fields(I, o):
         cls = o.cls if isinstance(o, Obj) else o
         out = []
